@@ -1,5 +1,6 @@
 import LinfaSpec.Proofs.Metrics
 import LinfaSpec.Proofs.MetricsRoc
+import LinfaSpec.Proofs.MetricsReal
 
 /-!
 # C05 — every evaluation metric equals its definition recomputed from first principles
@@ -435,5 +436,61 @@ theorem roc_sentinel_defect :
   refine ⟨by decide +kernel, by decide +kernel⟩
 
 end Roc
+
+section Mcc
+
+/-- **Matthews correlation, binary case**: the general triple loop of `mcc()` evaluated on a 2×2
+matrix `[[tp, fp], [fn, tn]]` is `(tp·tn − fp·fn) / √((tp+fp)(fn+tn)(tp+fn)(fp+tn))` -/
+theorem mcc_binary (a b c d : Nat) :
+    (mcc [[a, b], [c, d]] : ℝ) =
+      ((a : ℝ) * d - (b : ℝ) * c) /
+        Real.sqrt ((((a : ℝ) + b) * ((c : ℝ) + d)) * (((a : ℝ) + c) * ((b : ℝ) + d))) := by
+  rw [mcc_two_by_two, div_div, ← Real.sqrt_mul (by positivity)]
+  have : 2 * (((a : ℝ) + b) * ((c : ℝ) + d)) * (2 * (((a : ℝ) + c) * ((b : ℝ) + d))) =
+      (2 : ℝ) ^ 2 * ((((a : ℝ) + b) * ((c : ℝ) + d)) * (((a : ℝ) + c) * ((b : ℝ) + d))) := by ring
+  rw [this, Real.sqrt_mul (by positivity), Real.sqrt_sq (by norm_num)]
+  rw [mul_div_mul_left _ _ two_ne_zero]
+
+example : (mcc [[3, 0], [1, 2]] : ℝ) = 6 / Real.sqrt 72 := by
+  rw [mcc_binary]; norm_num
+
+end Mcc
+
+section PermReg
+variable {α : Type} [Field α] [LinearOrder α] [IsStrictOrderedRing α]
+
+/-- **permutation invariance of the regression scores built from sums**: applying one permutation
+to predictions and truths together (a permutation of the list of pairs) leaves MAE, MSE, R² and the
+coded explained variance unchanged -/
+theorem perm_invariant_regression (tiny : α) (ps ps' : List (α × α)) (h : ps.Perm ps') :
+    meanAbsError (ps.map Prod.fst) (ps.map Prod.snd) = meanAbsError (ps'.map Prod.fst) (ps'.map Prod.snd) ∧
+    meanSqError (ps.map Prod.fst) (ps.map Prod.snd) = meanSqError (ps'.map Prod.fst) (ps'.map Prod.snd) ∧
+    r2 tiny (ps.map Prod.fst) (ps.map Prod.snd) = r2 tiny (ps'.map Prod.fst) (ps'.map Prod.snd) ∧
+    explainedVariance tiny (ps.map Prod.fst) (ps.map Prod.snd) =
+      explainedVariance tiny (ps'.map Prod.fst) (ps'.map Prod.snd) := by
+  have hsub : ∀ qs : List (α × α), subL (qs.map Prod.fst) (qs.map Prod.snd) = qs.map fun p => p.1 - p.2 := by
+    intro qs; induction qs with
+    | nil => rfl
+    | cons q qs ih => simp only [subL, List.map_cons, List.zipWith_cons_cons] at ih ⊢; rw [ih]
+  have hmean : ∀ {l l' : List α}, l.Perm l' → meanS l = meanS l' := by
+    intro l l' hp
+    unfold meanS
+    rw [sumS_eq_sum, sumS_eq_sum, hp.sum_eq, hp.length_eq]
+    cases l <;> cases l' <;> simp_all
+  have hsum : ∀ {l l' : List α}, l.Perm l' → sumS l = sumS l' := by
+    intro l l' hp; rw [sumS_eq_sum, sumS_eq_sum, hp.sum_eq]
+  have hd : (ps.map fun p => p.1 - p.2).Perm (ps'.map fun p => p.1 - p.2) := h.map _
+  have hb : (ps.map Prod.snd).Perm (ps'.map Prod.snd) := h.map _
+  refine ⟨?_, ?_, ?_, ?_⟩
+  · unfold meanAbsError; rw [hsub, hsub]; exact hmean (hd.map _)
+  · unfold meanSqError; rw [hsub, hsub]; exact hmean (hd.map _)
+  · unfold r2 sqDevSum; rw [hsub, hsub, hmean hb, hsum (hd.map _)]
+    congr 1; funext m; rw [hsum (hb.map _)]
+  · unfold explainedVariance sqDevSum; rw [hsub, hsub, hmean hb, hmean hd, hsum (hd.map _)]
+    congr 1; funext m; congr 1; funext e; rw [hsum (hb.map _)]
+
+example : ([((1 : Rat), (2 : Rat)), (3, 1), (2, 2)]).Perm [(2, 2), (1, 2), (3, 1)] := by decide
+
+end PermReg
 
 end LinfaSpec.Props.C05
